@@ -658,11 +658,16 @@ def finishErr (row : Row) (e : PErr) : PRes :=
   | some col => let (pos, d) := row.position col; .err e.code pos d col
   | none => .err e.code [] [] []
 
-/-- every data line parsed, in order, into the same message; `first` = sheet index of data line 0 -/
+/-- a data line whose named columns are all blank (cells under blank name cells belong to no column) -/
+def Row.blank (r : Row) : Bool := r.cells.all (fun c => c.1.isEmpty || c.2.1.isEmpty)
+
+/-- every data line parsed, in order, into the same message; `first` = sheet index of data line 0.
+A line whose named columns are all blank states nothing and is skipped (fix D35). -/
 def parseLines (c : Ctx) (fields : List TField) (cols : Cols) (first : Nat) (transposed : Bool) : Nat → Nat → Msg → PRes
   | 0, _, m => .ok m
   | fuel + 1, i, m =>
     let row := cols.row i (first + i) transposed
+    if row.blank then parseLines c fields cols first transposed fuel (i + 1) m else
     match parseFields c row.acc fields m [] with
     | .ok (m', _) => parseLines c fields cols first transposed fuel (i + 1) m'
     | .error e => finishErr row e
